@@ -51,7 +51,10 @@ type Case struct {
 	// Parent[i] is the index of the root's parent block in the universe (a root with a lower slot, not
 	// necessarily slot-1: slots can be skipped), or -1 when the parent is outside the universe.
 	Parent []int `json:"parent,omitempty"`
-	Ops    []Op  `json:"ops"`
+	// NonCanonical[i]: the beacon node serves root i's header with canonical=false (an orphaned or
+	// minority-fork block; it still has exactly one slot).
+	NonCanonical []bool `json:"non_canonical,omitempty"`
+	Ops          []Op   `json:"ops"`
 }
 
 // burstRoot is a root outside the universe, unique per (op, goroutine, k).
@@ -106,7 +109,7 @@ func (h *headers) BeaconBlockHeader(_ context.Context, opts *api.BeaconBlockHead
 		if rootOf(i).String() == opts.Block {
 			return &api.Response[*apiv1.BeaconBlockHeader]{Data: &apiv1.BeaconBlockHeader{
 				Root:      rootOf(i),
-				Canonical: true,
+				Canonical: !(i < len(h.c.NonCanonical) && h.c.NonCanonical[i]),
 				Header: &phase0.SignedBeaconBlockHeader{Message: &phase0.BeaconBlockHeader{
 					Slot:       phase0.Slot(h.c.RootSlot[i]),
 					ParentRoot: h.c.parentRoot(i),
@@ -202,6 +205,7 @@ func genCase(t *rapid.T) Case {
 			}
 		}
 		c.Parent = append(c.Parent, parent)
+		c.NonCanonical = append(c.NonCanonical, rapid.IntRange(0, 3).Draw(t, "nonCanonical") == 0)
 	}
 	return c
 }
@@ -442,6 +446,12 @@ func check(t ev.TB, c *Case) {
 	}
 	if st.knewMore {
 		labels = append(labels, "cache-knew-a-root-the-model-did-not(correctly)")
+	}
+	for i := range c.NonCanonical {
+		if c.NonCanonical[i] {
+			labels = append(labels, "root-served-as-non-canonical")
+			break
+		}
 	}
 	for i, p := range c.Parent {
 		if p >= 0 && c.RootSlot[i] > c.RootSlot[p]+1 {
